@@ -2,8 +2,10 @@
 # mut.sh <prop> <file-in-repo> <sed-expr> [extra check args]: apply a one-line mutation to /repo, run the check, undo
 prop=$1; f=$2; expr=$3; shift 3
 cd /repo && git diff --quiet || { echo "/repo not clean"; exit 2; }
+rm -rf /verif/work/evidence.bak; mkdir -p /verif/work; cp -r /verif/evidence /verif/work/evidence.bak
 sed -i "$expr" /repo/$f
 if git -C /repo diff --quiet; then echo "mutation did not change anything"; exit 2; fi
 git -C /repo diff | grep '^[-+]' | grep -v '^+++\|^---'
 (cd /verif && ./check $prop --tier quick "$@" 2>&1 | grep -E "^check|VIOLATION|INCONCLUSIVE|violation:" | cut -c1-250 | head -8)
 git -C /repo checkout -q -- .
+cp /verif/work/evidence.bak/*.json /verif/evidence/; rm -rf /verif/work/evidence.bak
